@@ -82,6 +82,18 @@ type G[T any] struct {
 //go:noinline
 func (g *G[T]) M(a int) int { return w(a) + 800 + g.Tag }
 
+// W: a generic struct whose VALUE receiver is too wide for the argument registers (it is passed on the stack): the wrapper of an
+// instantiation copies the receiver before it loads the dictionary and calls the shape body, so that call lies far from the
+// wrapper's entry
+type W[T any] struct {
+	Tag int
+	Pad [9]int
+	X   T
+}
+
+//go:noinline
+func (g W[T]) M(a int) int { return w(a) + 1300 + g.Tag + g.Pad[8] }
+
 // N: a generic method whose body's FIRST call goes to another generic method of the same type (goom finds the shape body
 // of an instantiation by following the first call of its wrapper - one hop, not two)
 //
